@@ -47,7 +47,8 @@ func (b *Builder) DrawXObject(obj graphics.XObject) {
 // inline image keys (W, H, BPC, CS, etc.) as defined in PDF table 90.
 // The data contains the (possibly compressed) image samples.
 //
-// Inline images are limited to small images; for larger images use
+// Inline images are limited to small images (at most 4096 bytes of data,
+// see [content.ValidateInlineImage]); for larger images use
 // [Builder.DrawXObject] instead.
 func (b *Builder) DrawInlineImageRaw(dict pdf.Dict, data []byte) {
 	if b.Err != nil {
@@ -57,7 +58,8 @@ func (b *Builder) DrawInlineImageRaw(dict pdf.Dict, data []byte) {
 		b.Err = errors.New("inline images not allowed in this context")
 		return
 	}
-	if err := content.ValidateInlineImageFilter(dict); err != nil {
+	// what the content scanner refuses to read back is not written
+	if err := content.ValidateInlineImage(dict, data); err != nil {
 		b.Err = err
 		return
 	}
